@@ -104,6 +104,26 @@ def eslAlistatOneLine (a : Abc) (recs : List Rec) : String :=
     padLeft 7 (toString st.alen) ++ " " ++ padLeft 12 (toString st.nres) ++ " " ++ padLeft 6 (toString st.small) ++ " " ++
     padLeft 6 (toString st.large) ++ " " ++ padLeft 10 (avgLen st.nres st.nseq) ++ " " ++ padLeft 3 (pct0 (avgId a rows 1000)) ++ "\n"
 
+/-- `easel alistat -1 <afa>`: `esl_dataheader` line pair + one row; the record size is the file size (one alignment
+    starting at offset 0) and `size/nres` is a single-precision quotient -/
+def easelAlistatOneLine (a : Abc) (fileSize : Nat) (recs : List Rec) : String :=
+  let rows := recs.map fun r => a.normalize r.seq
+  let st := aliStats a rows
+  let cols : List (Int × String) := [(-6, "idx"), (-20, "name"), (-10, "format"), (10, "nseq"), (10, "alen"), (12, "nres"), (6, "small"),
+    (6, "large"), (8, "avglen"), (3, "%id"), (12, "recsize"), (10, "size/nres")]
+  let cell (first : Bool) (w : Int) (t : String) : String :=
+    let width := w.natAbs - (if first then 2 else 0)
+    (if first then "# " else "") ++ (if w < 0 then padRight width t else padLeft width t)
+  let hdr := " ".intercalate (cols.mapIdx fun i c => cell (i == 0) c.1 c.2) ++ "\n"
+  let dashes := " ".intercalate (cols.mapIdx fun i c =>
+    (if i == 0 then "#" else "") ++ String.ofList (List.replicate (c.1.natAbs - (if i == 0 then 1 else 0)) '-')) ++ "\n"
+  let ratio := fmtFloat (Float32.ofNat fileSize / Float32.ofNat st.nres).toFloat 2
+  hdr ++ dashes ++
+  padRight 6 "1" ++ " " ++ padRight 20 "(null)" ++ " " ++ padLeft 10 "aligned FASTA" ++ " " ++ padLeft 10 (toString st.nseq) ++ " " ++
+    padLeft 10 (toString st.alen) ++ " " ++ padLeft 12 (toString st.nres) ++ " " ++ padLeft 6 (toString st.small) ++ " " ++
+    padLeft 6 (toString st.large) ++ " " ++ padLeft 8 (avgLen st.nres st.nseq) ++ " " ++ padLeft 3 (pct0 (avgId a rows 1000)) ++ " " ++
+    padLeft 12 (toString fileSize) ++ " " ++ padLeft 10 ratio ++ "\n"
+
 theorem aliStats_nres (a : Abc) (rows : List (List Char)) :
     (aliStats a rows).nres = (rows.map (rowRlen a)).sum := by
   simp [aliStats, stats, foldl_statsStep_nres]
